@@ -22,13 +22,17 @@ bf.SCRIPTS.update({
                    ('add_jobs', 'u1', 2, [J(1, abs_group=2), J(2, group=1)]), ('commit', 'u1', 2)],
     'c07_sub_g3': [('new_update', 'u1', 't2', 1, 1), ('add_groups', 'u1', 2, [G(1, parent_abs=3)]),
                    ('add_jobs', 'u1', 2, [J(1, group=1)]), ('commit', 'u1', 2)],
+    # an update whose job groups arrive in TWO bunches: the second names the group created by the first as its in-update parent
+    'c07_two_group_bunches': [('new_update', 'u1', 't2', 1, 2), ('add_groups', 'u1', 2, [G(1, parent_abs=0)]),
+                              ('add_groups', 'u1', 2, [G(2, parent_in=1)]), ('add_jobs', 'u1', 2, [J(1, group=2)]), ('commit', 'u1', 2)],
     'c07_job_into_g1': [('new_update', 'u1', 't2', 1, 0), ('add_jobs', 'u1', 2, [J(1, abs_group=1)]), ('commit', 'u1', 2)],
 })
 OPTS = {'stale_attempt': False, 'preempt': False, 'token_flip': False, 'dup_reports': False, 'no_sweeps': True, 'readers': False}
 
 
 def setups(tier):
-    s = [('tree+sub_g2', 'c07_tree', 'c07_sub_g2', []), ('tree_ar+job_into_g1', 'c07_tree_ar', 'c07_job_into_g1', [])]
+    s = [('tree+sub_g2', 'c07_tree', 'c07_sub_g2', []), ('tree_ar+job_into_g1', 'c07_tree_ar', 'c07_job_into_g1', []),
+         ('tree_ar+two_group_bunches', 'c07_tree_ar', 'c07_two_group_bunches', [])]
     if tier != 'quick':
         s += [('tree+sub_g3', 'c07_tree', 'c07_sub_g3', []), ('tree_ar+sub_g2', 'c07_tree_ar', 'c07_sub_g2', [])]
     return s
@@ -86,7 +90,10 @@ class H(bf.Family):
             if req == 'add_groups':
                 spec = l[3][0]
                 parent = spec.get('absolute_parent_id')
-                if parent is not None:
+                upd = v0.updates.get(l[2])
+                if parent is None and upd is not None and spec.get('in_update_parent_id') is not None:
+                    parent = upd['start_job_group_id'] + spec['in_update_parent_id'] - 1
+                if parent is not None and (parent == 0 or any(g['job_group_id'] == parent for g in v0.groups)):
                     target_cancelled = v0.group_cancelled(parent)
             elif req == 'add_jobs':
                 upd = v0.updates.get(l[2])
